@@ -20,6 +20,9 @@ type State struct {
 	Mem    map[int]Val
 	Regs   map[ssa.Value]Val
 	Defers []deferRec
+	// set by rangeNext for a map entry that is present only under this condition: the block
+	// executor sends the complement straight back to the loop header (entry skipped)
+	skipUnless *Term
 }
 
 type deferRec struct {
@@ -136,6 +139,8 @@ type Exec struct {
 	// two-run non-interference (see tworun.go)
 	TwoRun       string // obligation id prefix; "" = off
 	TwoRunOnly   bool   // keep only the two-run obligations of the instance
+	InitIncomplete string // non-empty: the package initialiser could not be executed completely (reason)
+	MapReverse   bool   // iterate maps with concrete keys in descending instead of ascending key order
 	SymPrefix    string // prefix of input names (the "other run" gets its own inputs)
 	SharedMax    int    // objects 1..SharedMax exist after package initialisation
 	SharedWrites []SharedWrite
@@ -874,6 +879,19 @@ func (e *Exec) execBlock(fr *frame, b *ssa.BasicBlock, st *State) {
 			return
 		default:
 			e.execInstr(fr, st, in)
+			if st.skipUnless != nil {
+				pres := st.skipUnless
+				st.skipUnless = nil
+				if l := fr.fi.LoopOf[b]; l == nil || l.Header != b {
+					panic(&UnsupportedErr{Msg: "range over a map with conditional entries outside a loop header at " + e.pos(in.Pos())})
+				}
+				s2 := st.fork()
+				s2.G = e.S.And(s2.G, e.S.Not(pres))
+				st.G = e.S.And(st.G, pres)
+				if !s2.dead() {
+					fr.pend[b] = append(fr.pend[b], s2)
+				}
+			}
 		}
 	}
 }
